@@ -62,8 +62,14 @@ let () =
           let sep = parse_sep t.(2) and keys = parse_fields t.(3) and text = parse_hexbytes t.(4) in
           if t.(1) = "mem" then
             print_string (show show_rows (csv_load sep keys text) ^ "\n")
-          else if not (utf8_detected chunk_size text) then print_string "UNSUPPORTED\n"
-          else print_string (show show_rows (csv_load_stream chunk_size sep keys text) ^ "\n")
+          else begin
+            (* "stream" = the library's chunk size 256; "stream<K>" = the chunk size of a hook build
+               (-DBITSERIALIZER_VERIF_CSV_CHUNK_SIZE=<K>); the theorems are for every K *)
+            let k = if t.(1) = "stream" then chunk_size
+                    else nat_of_int (int_of_string (String.sub t.(1) 6 (String.length t.(1) - 6))) in
+            if not (utf8_detected k text) then print_string "UNSUPPORTED\n"
+            else print_string (show show_rows (csv_load_stream k sep keys text) ^ "\n")
+          end
         | "sepv" when Array.length t = 2 ->
           let a = if validate_separator (parse_sep t.(1)) then "OK" else "EXC:InvalidOptions" in
           Printf.printf "%s %s %s %s\n" a a a a
